@@ -805,3 +805,89 @@ def arraysep(facts: CppFacts):
     res.detail = {"reader_accepts_after_element": sorted(accepted) if accepted else "anything"}
     res.analysed = ["runtime/cpp/emboss_text_util.h"]
     return res
+
+
+# ---- R-INTTEXT ----------------------------------------------------------------------------------------
+def inttext(facts: CppFacts, only=None):
+    """R-INTTEXT (C06): the integer text writer and reader use one alphabet.
+    * every digit character the writer can emit (`digits[i]`, i < 16) is decoded by the reader to i;
+    * the base prefix the writer puts in front of a hexadecimal / binary number selects that base in the reader;
+    * the separator the writer inserts is skipped by the reader; the sign character is the one the reader tests;
+    * the scratch buffer holds the longest output (binary with separators, sign, prefix, NUL) for 1/2/4/8-byte types."""
+    from .. import cppexpr as X
+    res = RuleResult("R-INTTEXT")
+    TU = "runtime/cpp/emboss_text_util.h"
+    wr = [f for f in facts.functions if f.name == "WriteIntegerToTextStream"]
+    rd = [f for f in facts.functions if f.name == "DecodeInteger"]
+    if not wr or not rd:
+        raise AnalysisError("WriteIntegerToTextStream / DecodeInteger not found")
+    w, r = _CM.sub("", wr[0].body), _CM.sub("", rd[0].body)
+    # reader tables
+    ranges = re.findall(r"c\s*>=\s*'(.)'\s*&&\s*c\s*<=\s*'(.)'\s*\)\s*\{\s*digit\s*=\s*c\s*-\s*'(.)'\s*(?:\+\s*(\d+))?\s*;", r)
+    if len(ranges) < 3:
+        raise AnalysisError("DecodeInteger: digit ranges not recognised")
+
+    def decode(ch):
+        for lo, hi, base_ch, plus in ranges:
+            if lo <= ch <= hi:
+                return ord(ch) - ord(base_ch) + int(plus or 0)
+        return None
+    prefixes = {}
+    for letters, base in re.findall(r"((?:text\s*\[\s*offset\s*\+\s*1\s*\]\s*==\s*'.'\s*(?:\|\|\s*)?)+)\)\s*\{\s*base\s*=\s*(\d+)\s*;", r):
+        for ch in re.findall(r"'(.)'", letters):
+            prefixes[ch] = int(base)
+    if not re.search(r"text\s*\[\s*offset\s*\]\s*==\s*'0'", r) or not prefixes:
+        raise AnalysisError("DecodeInteger: base prefixes not recognised")
+    skips = set(re.findall(r"if\s*\(\s*c\s*==\s*'(.)'\s*\)\s*\{(?:[^{}]|\{[^{}]*\})*?continue\s*;", r, re.S))
+    sign_r = re.findall(r"text\s*\[\s*offset\s*\]\s*==\s*'(-)'", r)
+    # writer tables
+    dm = re.search(r"digits\s*=\s*\"([^\"]+)\"", w)
+    if not dm:
+        raise AnalysisError("WriteIntegerToTextStream: digit string not found")
+    digits = dm.group(1)
+    for i, ch in enumerate(digits):
+        res.instances += 1
+        if decode(ch) != i:
+            res.add(f"{TU}|digits|{i}", f"the writer emits '{ch}' for digit value {i}; the reader decodes '{ch}' as {decode(ch)}", TU, wr[0].line, "WriteIntegerToTextStream")
+    if len(digits) != 16:
+        res.add(f"{TU}|digits|count", f"the writer's digit string has {len(digits)} characters; base 16 needs 16", TU, wr[0].line, "WriteIntegerToTextStream")
+    for base, a, b in re.findall(r"base\s*==\s*(\d+)\s*\)\s*\{\s*buffer_char\(\s*'(.)'\s*\)\s*;\s*buffer_char\(\s*'(.)'\s*\)\s*;", w):
+        res.instances += 1
+        # the buffer is filled from the end: the second character written comes first in the text
+        if b != "0" or prefixes.get(a) != int(base):
+            res.add(f"{TU}|prefix|{base}", f"a base-{base} number is written with prefix '{b}{a}'; the reader maps that prefix to "
+                    f"{'base ' + str(prefixes.get(a)) if b == '0' and a in prefixes else 'no base (decimal digits follow)'}", TU, wr[0].line, "WriteIntegerToTextStream")
+    seps = set(re.findall(r"digit_grouping\s*\)\s*\{\s*buffer_char\(\s*'(.)'\s*\)", w))
+    res.instances += 2
+    if not seps or not seps <= skips:
+        res.add(f"{TU}|separator", f"the writer separates digit groups with {sorted(seps)}, the reader skips {sorted(skips)}", TU, wr[0].line, "WriteIntegerToTextStream")
+    sign_w = re.findall(r"sign\s*<\s*0\s*\)\s*\{\s*buffer_char\(\s*'(.)'\s*\)", w)
+    if sign_w != ["-"] or sign_r != ["-"]:
+        res.add(f"{TU}|sign", f"sign characters differ: writer {sign_w}, reader {sign_r}", TU, wr[0].line, "WriteIntegerToTextStream")
+    # grouping sizes and buffer size
+    gm = re.search(r"grouping\s*=\s*([^;]+);", w)
+    bm = re.search(r"buffer_size\s*=\s*([^;]+);", w)
+    if not gm or not bm:
+        raise AnalysisError("WriteIntegerToTextStream: grouping / buffer_size not found")
+    try:
+        ge = X.parse(gm.group(1))
+        be = X.parse(bm.group(1).replace("(sizeof value)", "sizeof(ValueT)"), type_names={"ValueT"})
+        for base, want in ((10, 3), (16, 4), (2, 8)):
+            res.instances += 1
+            got = X.evaluate(ge, X.Env({"base": X.V(X.T(False, 8), base)})).v
+            if got != want:
+                res.add(f"{TU}|grouping|{base}", f"base-{base} digits are grouped by {got}; documented grouping is {want}", TU, wr[0].line, "WriteIntegerToTextStream")
+        for bits in (8, 16, 32, 64):
+            res.instances += 1
+            got = X.evaluate(be, X.Env({"CHAR_BIT": X.V(X.INT, 8)}, {"ValueT": X.T(True, bits)})).v
+            need = bits + (bits // 8 - 1) + 2 + 1 + 1
+            if got < need:
+                res.add(f"{TU}|buffer|{bits}", f"the scratch buffer of a {bits}-bit value has {got} bytes; binary output with separators, "
+                        f"prefix, sign and NUL needs {need}", TU, wr[0].line, "WriteIntegerToTextStream")
+    except (X.Unsupported, X.UB) as e:
+        raise AnalysisError(f"WriteIntegerToTextStream: {e}")
+    res.samples = [f"digits {digits!r}; prefixes {prefixes}; separator {sorted(seps)}"]
+    res.analysed = [TU]
+    if only is not None:
+        res.findings = [x for x in res.findings if any(f"|{o}" in x.key for o in only)]
+    return res
